@@ -25,6 +25,9 @@ def tweak(world, rng):
     mt = 1000000400
     if how == "link-other-volume":
         return other_volume(world, rng, nodes, v, mt)
+    if len(world["mounts"]) > 1 and world["cmd"] in ("list", "empty", "rm") and rng.random() < 0.25:
+        world = volumes_env(world, rng, nodes, v, mt)
+        nodes = {n["p"]: n for n in world["nodes"]}
 
     def d(path, mode=0o755):
         nodes[path] = {"p": path, "k": "d", "mode": mode, "mtime": mt}
@@ -69,6 +72,27 @@ def tweak(world, rng):
         if rng.random() < 0.5:
             world["opts"].pop("dryRun", None)
     world["argv"] = cmd_argv(world)
+    return world
+
+
+def volumes_env(world, rng, nodes, v, mt):
+    """TRASH_VOLUMES names a volume through a symbolic link followed by '..' (typed by hand): the kernel follows the link
+    first; the directory that is judged is the directory that is read - a textual collapse of the spelling would name the
+    $topdir the link lives on, whose insecure .Trash nobody has judged"""
+    uid = world["uid"]
+    b_ = rng.choice([m for m in world["mounts"] if m != v])
+    for q in (v, b_, b_.rstrip(b"/") + b"/sub"):
+        if q not in nodes:
+            nodes[q] = {"p": q, "k": "d", "mode": 0o755, "mtime": mt}
+        elif nodes[q]["k"] != "d":
+            return world
+    lk = v.rstrip(b"/") + b"/to-other"
+    if lk in nodes:
+        return world
+    nodes[lk] = {"p": lk, "k": "l", "target": b_.rstrip(b"/") + b"/sub"}
+    world["nodes"] = sorted(nodes.values(), key=lambda n: n["p"])
+    world["env"] = dict(world["env"], TRASH_VOLUMES=b":".join([v, lk + b"/.."]))
+    world["opts"].pop("userDirs", None)
     return world
 
 
